@@ -41,6 +41,7 @@ func (n *node) fail(what, class string) {
 		class = n.taint // a consequence of an already reported, tagged failure on this node
 	}
 	n.w.run.Count("fail-class=" + class)
+	n.w.run.Count(fmt.Sprintf("fail-class=%s producers=%d", class, len(n.w.gbps)))
 	if class != "" {
 		// the run keeps a bounded list of failures: at most two per known class, so that an untagged one is never crowded out
 		classSeen[class]++
